@@ -164,6 +164,116 @@ class Graph(Family):
         return f"{obs['r'][0]}:{obs['r'][1] if obs['r'][0] == 'error' else ''}:hops={len(obs['conns'])}:follow={case['follow']}"
 
 
+class Overlap(Family):
+    """ONE client, several fetches in flight at the same time (a proxy, a crawler, a GUI with tabs): every fetch on its own
+    is bounded, loop-free and followed exactly as if it ran alone - no state of one fetch (chain, hop count) leaks into another.
+    Each fetch walks its own URL namespace, so every connection is attributed to the fetch that made it; `_get_single` is
+    a scripted graph whose answers take a scripted number of loop iterations, which fixes the interleaving."""
+
+    name = "overlap"
+    quick_n = 700
+    thorough_n = 15000
+
+    def gen(self, rng: random.Random, n: int):
+        g0 = Graph()
+        fixed = []
+        # a chain longer than max_redirects, a second fetch started while the first is between hops
+        for mx in (1, 2, 3):
+            for delay2 in range(0, 2 * mx + 4):
+                chain = {f"gemini://f0/{i}": ["r", 30, f"gemini://f0/{i + 1}"] for i in range(mx + 2)}
+                chain[f"gemini://f0/{mx + 2}"] = ["f", 20]
+                loop = {"gemini://f1/a": ["r", 30, "gemini://f1/b"], "gemini://f1/b": ["r", 31, "gemini://f1/a"]}
+                fixed.append({"max": mx, "fetches": [{"start": "gemini://f0/0", "graph": chain, "delay": 0, "lat": 2},
+                                                      {"start": "gemini://f1/a", "graph": loop, "delay": delay2, "lat": 1}]})
+        for c in self.share(fixed):
+            yield c
+        sub = g0.gen(random.Random(rng.randrange(1 << 30)), 10 ** 9)
+        for _ in range(n):
+            k = rng.choice([2, 2, 3])
+            mx = rng.randint(0, 5)
+            fetches = []
+            for j in range(k):
+                c = next(sub)
+                ren = lambda u, j=j: u.replace("gemini://", f"gemini://f{j}-", 1) if u.startswith("gemini://") and len(u) > 9 else u
+                graph = {ren(u): ([e[0], e[1], ren(e[2])] if e[0] == "r" else list(e)) for u, e in c["graph"].items()}
+                fetches.append({"start": ren(c["start"]), "graph": graph, "delay": rng.randint(0, 6), "lat": rng.randint(0, 3)})
+            yield {"max": mx, "fetches": fetches}
+
+    def impl(self, case):
+        from nauyaca.client.session import GeminiClient
+        from nauyaca.protocol.response import GeminiResponse
+
+        def run(fetches):
+            conns: list[list[str]] = [[] for _ in fetches]
+            owner = {}
+            for j, f in enumerate(fetches):
+                for u in f["graph"]:
+                    owner[u] = j
+
+            def fetch_of(url):
+                for j, f in enumerate(fetches):
+                    if url in f["graph"] or url == f["start"] or any(e[0] == "r" and e[2] == url for e in f["graph"].values()):
+                        return j
+                return None
+
+            async def fake_single(url: str):
+                j = fetch_of(url)
+                if j is None:
+                    raise ConnectionError("stub: no such host")
+                conns[j].append(url)
+                for _ in range(fetches[j]["lat"]):
+                    await asyncio.sleep(0)
+                e = fetches[j]["graph"].get(url)
+                if e is None or e[0] == "e":
+                    raise ConnectionError("stub: no such host")
+                if e[0] == "f":
+                    return GeminiResponse(status=e[1], meta="text/gemini" if 20 <= e[1] < 30 else "meta", body="x" if 20 <= e[1] < 30 else None, url=url)
+                return GeminiResponse(status=e[1], meta=e[2], url=url)
+
+            async def one(client, f):
+                for _ in range(f["delay"]):
+                    await asyncio.sleep(0)
+                try:
+                    r = await client.get(f["start"], follow_redirects=True)
+                except ValueError as ex:
+                    m = str(ex)
+                    return ["error", "loop" if "loop" in m.lower() else "toomany" if "aximum redirects" in m else "missing" if "missing URL" in m else "valueerror:" + m[:40]]
+                except ConnectionError:
+                    return ["error", "fetcherr"]
+                if 30 <= r.status < 40:
+                    return ["redirect", r.status, r.meta]
+                return ["final", r.status]
+
+            async def go():
+                client = GeminiClient(max_redirects=case["max"], verify_ssl=False, trust_on_first_use=False)
+                client._get_single = fake_single  # type: ignore[method-assign]
+                return await asyncio.gather(*(one(client, f) for f in fetches))
+
+            res = asyncio.run(go())
+            return [{"r": r, "conns": c} for r, c in zip(res, conns)]
+
+        together = run(case["fetches"])
+        alone = [run([f])[0] for f in case["fetches"]]
+        return {"together": together, "alone": alone}
+
+    def model(self, case):
+        return None      # each fetch alone is compared with the Lean model in family graph
+
+    def oracle(self, case, obs):
+        g0 = Graph()
+        for j, f in enumerate(case["fetches"]):
+            sub = {"max": case["max"], "graph": f["graph"], "start": f["start"], "follow": True}
+            v = g0.oracle(sub, obs["together"][j])
+            if v:
+                return (v[0], f"fetch {j + 1} of {len(case['fetches'])} overlapping fetches on one client: " + v[1])
+            if obs["together"][j] != obs["alone"][j]:
+                return ("fetches-interfere", f"fetch {j + 1} of {len(case['fetches'])} on one client: {obs['together'][j]} while other fetches were in flight, {obs['alone'][j]} alone")
+        return None
+
+    def key(self, case, obs):
+        return "+".join(sorted(f"{o['r'][0]}:{o['r'][1] if o['r'][0] == 'error' else ''}:{len(o['conns'])}" for o in obs["together"]))
+
+
 class Live(Family):
     """the full GeminiClient (TOFU on, temporary pin store) against up to three scripted loopback TLS servers that
     count TCP connections and log request lines: bound, scheme, pin check on every hop, faults (a server that drops
@@ -181,7 +291,17 @@ class Live(Family):
             for j in range(nh):
                 hops.append({"peer": rng.randrange(3), "host": rng.choice(hosts), "path": f"/h{j}" + rng.choice(["", "?q=1", "/x"]), "cert": rng.choice(["ec", "rsa", "ed"])})
             kind = rng.choice(["chain", "chain", "revisit-swap", "drop", "loop", "nongemini"])
+            if i % 24 == 7:
+                kind = "locked"
+                # the LAST hop's host:port is pinned with another certificate and the pin store cannot be read when that hop is
+                # reached (another process holds the database lock): the pin cannot be verified, so nothing may be sent to that hop
+                hops = hops[: rng.choice([1, 2, 2, 3])]
+                for j in range(len(hops) - 1):         # make sure the last hop's host:port is not visited earlier
+                    if (hops[j]["peer"], hops[j]["host"]) == (hops[-1]["peer"], hops[-1]["host"]):
+                        hops[j]["peer"] = (hops[-1]["peer"] + 1) % 3
             case = {"max": rng.randint(0, 4), "follow": rng.random() < 0.85, "hops": hops, "kind": kind, "final": rng.choice([20, 51, 20])}
+            if kind == "locked":
+                case["max"], case["follow"] = 4, True
             if kind == "revisit-swap" and nh >= 3:
                 # hop 0 and the last hop are the same host:port, which presents another certificate the second time
                 hops[-1]["peer"], hops[-1]["host"] = hops[0]["peer"], hops[0]["host"]
@@ -190,13 +310,19 @@ class Live(Family):
                 case["kind"] = "chain"
             if kind == "drop":
                 case["drop_at"] = rng.randrange(nh)
+            case["code"] = rng.choice([30, 31, 31])
+            if kind in ("chain", "loop", "nongemini") and rng.random() < 0.35:
+                # the same client object is used for a second fetch of the same URL (other follow / max settings): it is a
+                # fresh fetch - nothing remembered from the first one may replace a connection or a response
+                case["again"] = {"follow": rng.random() < 0.5, "max": rng.randint(0, 4)}
             yield case
 
-    def _expected(self, case, ports):
+    def _expected(self, case, ports, pins=None):
         """reference walk straight from the property text (independent of the Lean model)"""
         hops, mx = case["hops"], case["max"]
+        code = case.get("code", 30)
         urls = [f"gemini://{h['host']}:{ports[h['peer']]}{h['path']}" for h in hops]
-        conns, pins = [], {}
+        conns, pins = [], ({} if pins is None else pins)
         for j, h in enumerate(hops):
             if case["follow"] and (urls[j] in urls[:j]):
                 return {"r": ["error", "loop"], "conns": conns}
@@ -207,6 +333,8 @@ class Live(Family):
             # the pin is checked right after the handshake, before anything is sent or read
             if key in pins and pins[key] != h["cert"]:
                 return {"r": ["error", "certchanged"], "conns": conns, "silent": True}
+            if case["kind"] == "locked" and j == len(hops) - 1:
+                return {"r": ["error", "*"], "conns": conns, "silent": True}
             pins[key] = h["cert"]
             if case.get("drop_at") == j and case["kind"] == "drop":
                 return {"r": ["error", "connection"], "conns": conns}
@@ -215,13 +343,13 @@ class Live(Family):
                 if case["kind"] == "loop":
                     # last hop redirects back to the first URL
                     if not case["follow"]:
-                        return {"r": ["redirect", 30, urls[0]], "conns": conns}
+                        return {"r": ["redirect", code, urls[0]], "conns": conns}
                     return {"r": ["error", "loop"], "conns": conns}
                 if case["kind"] == "nongemini":
                     return {"r": ["redirect", 31, "https://example.org/"], "conns": conns}
                 return {"r": ["final", case["final"]], "conns": conns}
             if not case["follow"]:
-                return {"r": ["redirect", 30, urls[j + 1]], "conns": conns}
+                return {"r": ["redirect", code, urls[j + 1]], "conns": conns}
         return {"r": ["error", "?"], "conns": conns}
 
     def impl(self, case):
@@ -240,32 +368,89 @@ class Live(Family):
             p.clear()
             p.take_log(2.0)
         hops = case["hops"]
+        code = case.get("code", 30)
         urls = [f"gemini://{h['host']}:{ports[h['peer']]}{h['path']}" for h in hops]
-        for j, h in enumerate(hops):
-            last = j == len(hops) - 1
-            if case["kind"] == "drop" and case.get("drop_at") == j:
-                peers[h["peer"]].push(h["cert"], [["read_request", 1.0], ["close"]])
-                # what a retrying client would get
-                peers[h["peer"]].push(h["cert"], [["read_request", 1.0], ["send", b"20 text/gemini\r\nretried\n"], ["close_notify"]])
-                continue
-            if last:
-                if case["kind"] == "loop":
-                    line = f"30 {urls[0]}\r\n".encode()
-                elif case["kind"] == "nongemini":
-                    line = b"31 https://example.org/\r\n"
-                else:
-                    line = f"{case['final']} text/gemini\r\n".encode() + (b"final\n" if case["final"] == 20 else b"")
-            else:
-                line = f"30 {urls[j + 1]}\r\n".encode()
-            peers[h["peer"]].push(h["cert"], [["read_request", 1.0], ["send", line], ["close_notify"]])
-        d = tempfile.mkdtemp(prefix="nv-c16-")
-        try:
-            async def go():
-                from pathlib import Path
 
-                client = GeminiClient(timeout=5, max_redirects=case["max"], verify_ssl=False, trust_on_first_use=True, tofu_db_path=Path(d) / "tofu.db")
+        def push_all():
+            for j, h in enumerate(hops):
+                last = j == len(hops) - 1
+                if case["kind"] == "drop" and case.get("drop_at") == j:
+                    peers[h["peer"]].push(h["cert"], [["read_request", 1.0], ["close"]])
+                    # what a retrying client would get
+                    peers[h["peer"]].push(h["cert"], [["read_request", 1.0], ["send", b"20 text/gemini\r\nretried\n"], ["close_notify"]])
+                    continue
+                if last:
+                    if case["kind"] == "loop":
+                        line = f"{code} {urls[0]}\r\n".encode()
+                    elif case["kind"] == "nongemini":
+                        line = b"31 https://example.org/\r\n"
+                    else:
+                        line = f"{case['final']} text/gemini\r\n".encode() + (b"final\n" if case["final"] == 20 else b"")
+                else:
+                    line = f"{code} {urls[j + 1]}\r\n".encode()
+                steps = [["read_request", 1.0], ["send", line], ["close_notify"]]
+                if case["kind"] == "locked" and j == len(hops) - 2 and hook:
+                    steps.insert(1, ["call", hook[0]])
+                peers[h["peer"]].push(h["cert"], steps)
+
+        def collect():
+            logs = []
+            for pi, p in enumerate(peers):
+                for e in p.take_log(5.0):
+                    logs.append([e["t"], pi, e["hs"], e["rx"].split(b"\r\n")[0].decode("latin1")])
+                p.clear()
+            logs.sort()
+            return {"conns": [l[3] for l in logs if l[2]], "tcp": len(logs), "rx_nonempty": [bool(l[3]) for l in logs if l[2]]}
+
+        d = tempfile.mkdtemp(prefix="nv-c16-")
+        out = {"ports": ports}
+        locker = []
+        hook: list = []
+        try:
+            from pathlib import Path
+
+            client_box = []
+            if case["kind"] == "locked":
+                import sqlite3
+
+                from nauyaca.security import tofu as tofu_mod
+
+                h = hops[-1]
+                other = "ec2" if h["cert"] != "ec2" else "rsa"
+                tofu_mod.TOFUDatabase(Path(d) / "tofu.db").trust(h["host"], ports[h["peer"]], w["certs"].x509(other))
+
+                def lock_now():
+                    c = sqlite3.connect(str(Path(d) / "tofu.db"), isolation_level=None, check_same_thread=False)
+                    c.execute("BEGIN EXCLUSIVE")
+                    locker.append(c)
+
+                class QuickSqlite:
+                    """sqlite3 with a short busy timeout, so that a locked store fails at once instead of after 5 s"""
+                    def __getattr__(self, name):
+                        return getattr(sqlite3, name)
+
+                    @staticmethod
+                    def connect(path, *a, **kw):
+                        kw.setdefault("timeout", 0.05)
+                        return sqlite3.connect(path, *a, **kw)
+
+                real_sqlite = tofu_mod.sqlite3
+                tofu_mod.sqlite3 = QuickSqlite()
+                if len(hops) == 1:
+                    # the client object exists (its constructor opens the store) before the lock is taken
+                    client_box.append(GeminiClient(timeout=5, max_redirects=case["max"], verify_ssl=False, trust_on_first_use=True, tofu_db_path=Path(d) / "tofu.db"))
+                    lock_now()
+                else:
+                    # the lock is taken while the hop before the last one is being answered
+                    hook.append(lock_now)
+
+            async def go(follow, mx):
+                if not client_box:
+                    client_box.append(GeminiClient(timeout=5, max_redirects=case["max"], verify_ssl=False, trust_on_first_use=True, tofu_db_path=Path(d) / "tofu.db"))
+                client = client_box[0]
+                client.max_redirects = mx
                 try:
-                    r = await client.get(urls[0], follow_redirects=case["follow"])
+                    r = await client.get(urls[0], follow_redirects=follow)
                 except CertificateChangedError:
                     return ["error", "certchanged"]
                 except ValueError as ex:
@@ -273,27 +458,55 @@ class Live(Family):
                     return ["error", "loop" if "loop" in m.lower() else "toomany" if "aximum redirects" in m else "valueerror:" + m[:40]]
                 except (ConnectionError, OSError, asyncio.TimeoutError) as ex:
                     return ["error", "connection"]
+                except Exception as ex:  # noqa: BLE001
+                    if case["kind"] != "locked":
+                        raise
+                    return ["error", type(ex).__name__]
                 if 30 <= r.status < 40:
                     return ["redirect", r.status, r.meta]
                 return ["final", r.status]
 
-            res = asyncio.run(go())
+            async def both():
+                push_all()
+                r1 = await go(case["follow"], case["max"])
+                await asyncio.sleep(0.05)
+                o1 = collect()
+                o1["r"] = r1
+                o2 = None
+                if case.get("again"):
+                    push_all()
+                    r2 = await go(case["again"]["follow"], case["again"]["max"])
+                    await asyncio.sleep(0.05)
+                    o2 = collect()
+                    o2["r"] = r2
+                return o1, o2
+
+            o1, o2 = asyncio.run(both())
         finally:
+            if case["kind"] == "locked":
+                tofu_mod.sqlite3 = real_sqlite
+            for c in locker:
+                c.close()
             shutil.rmtree(d, ignore_errors=True)
-        logs = []
-        for pi, p in enumerate(peers):
-            for e in p.take_log(5.0):
-                logs.append([e["t"], pi, e["hs"], e["rx"].split(b"\r\n")[0].decode("latin1")])
-            p.clear()
-        logs.sort()
-        return {"r": res, "conns": [l[3] for l in logs if l[2]], "tcp": len(logs), "ports": ports,
-                "rx_nonempty": [bool(l[3]) for l in logs if l[2]]}
+        out.update(o1)
+        out["again"] = o2
+        return out
 
     def model(self, case):
         return None   # the Lean model is compared in family graph; here the oracle speaks
 
     def oracle(self, case, obs):
-        exp = self._expected(case, obs["ports"])
+        pins: dict = {}
+        v = self._judge(case, obs, obs["ports"], pins)
+        if v or not case.get("again") or not obs.get("again"):
+            return v
+        second = dict(case)
+        second["follow"], second["max"] = case["again"]["follow"], case["again"]["max"]
+        v = self._judge(second, obs["again"], obs["ports"], pins)
+        return (v[0] + "-on-reuse", "second fetch of the same URL on the same client object: " + v[1]) if v else None
+
+    def _judge(self, case, obs, ports, pins):
+        exp = self._expected(case, ports, pins)
         if obs["tcp"] > (case["max"] + 1 if case["follow"] else 1):
             return ("bound", f"{obs['tcp']} TCP connections with max_redirects={case['max']} follow={case['follow']}")
         for c in obs["conns"]:
@@ -307,6 +520,10 @@ class Live(Family):
                 return ("pin-not-checked", f"a pinned host presented another certificate on hop {len(want_conns)}: requests seen {got}, result {obs['r']}")
         elif got != want_conns:
             return ("connections", f"connections {got}, expected {want_conns} (result {obs['r']}, expected {exp['r']})")
+        if exp["r"] == ["error", "*"]:
+            if obs["r"][0] != "error":
+                return ("pin-not-checked", f"the pin store could not be read when hop {len(want_conns)} (pinned with another certificate) was reached, yet the fetch returned {obs['r']}")
+            return None
         if obs["r"] != exp["r"]:
             return ("result", f"result {obs['r']}, expected {exp['r']} for {case['kind']} chain of {len(case['hops'])} hops, max {case['max']}")
         return None
@@ -315,4 +532,4 @@ class Live(Family):
         return f"{case['kind']}|{obs['r'][0]}:{obs['r'][1]}|tcp{obs['tcp']}|follow{int(case['follow'])}"
 
 
-FAMILIES = [Graph(), Live()]
+FAMILIES = [Graph(), Overlap(), Live()]
